@@ -71,7 +71,7 @@ PROPS = {
                 families=[eng("engine", "C12", 1200, 20000, ["calls", "args", "ctx", "haserr", "panic"]),
                           # callbacks after arbitrary earlier calls (undecodable request bodies included): still their own node, still this call's context
                           dict(name="history", family="history", profile="C07", quick=500, thorough=6000, tags=["calls", "args", "ctx", "panic"])]),
-    "C11": dict(theorems=["C11_catalogue_ok_partial", "C11_custom_refuted", "C11_no_placeholder_left", "C11_precedence_test", "C11_precedence_exec",
+    "C11": dict(theorems=["C11_catalogue_ok", "C11_custom_described", "C11_legacy_custom_refuted", "C11_no_placeholder_left", "C11_precedence_test", "C11_precedence_exec",
                           "C11_precedence_global", "C11_i18n_uses_context_language", "C11_i18n_falls_back_to_default"],
                 cone=["Model/Fmt.v", "Proofs/FmtP.v", "Gen/Tables.v"],
                 rule="exhaustive: every catalogue entry (every built-in test of every type, plain and negated, required / not_nil / coerce per type, front-end decode failures) x {no language, en, es, unknown language} plus test-level Message, execution-level formatter, both, and a formatter that sets nothing, after an i18n re-installation; then random (entry, language, test message, execution formatter) combinations; the finite theorems are re-proved against the tables dumped from the running code; distinct = distinct (entry, which formatters are present)",
